@@ -20,12 +20,15 @@ import Glom.Py.Val
       (a `T` is evaluated by `_t_eval` against the ORIGINAL target object,
       `Spec(T…)` likewise, `list`/`tuple`/`dict` are rebuilt with every member
       evaluated in argument mode, everything else is passed through literally)
-    * the `(` branch: `scope[glom](target, Call(cur, args, kwargs), scope)` and
-      `Call.glomit`: `r(func)(*r(args), **r(kwargs))` with `r = arg_val(target, ·)`
-      — the already evaluated function and arguments go through `arg_val` a
-      SECOND time (`Prim.revalCall`): a `list`/`dict`/`tuple` argument reaches
-      the callee as a rebuilt copy, and a glom spec object stored in the
-      target's data would be evaluated.
+    * the `(` branch: for `op == '('` the loop does NOT run `arg_val` on the
+      recorded `(args, kwargs)` (`if op != '(': arg = arg_val(…)`, commit db9b8f7);
+      `scope[glom](target, Call(cur, args, kwargs), scope)` and `Call.glomit`:
+      `r(func)(*r(args), **r(kwargs))` with `r = arg_val(target, ·)` evaluate, in
+      this order, the already evaluated callee `cur` (`Prim.revalFunc`: a callable
+      is a literal in argument mode), the tuple of arguments, the dict of keyword
+      arguments — each exactly once, against the ORIGINAL target object in the
+      state at that moment — and then call.  The callee receives the very objects
+      the arguments evaluate to.                                        → `stepOp`
 
   STATE.  Python objects are mutable: a recorded call may change the target
   (`T['l'].pop()`), and a later nested argument (`… + T['l'][-1]`) reads the
@@ -103,16 +106,11 @@ structure Prim (V S : Type) where
   mkTuple : S → List V → V × S                                  -- tuple(items)
   hashKey : S → V → Except PyExc Unit × S                       -- hash(k): TypeError for an unhashable object
   mkDict : S → List (V × V) → Except PyExc V × S                -- dict(pairs) for keys that have been hashed
-  /-- how a callee receives the function and the arguments of a recorded call,
-      *said without glom's vocabulary*: `list` / `tuple` / `dict` containers are
-      passed by value (rebuilt, members likewise), every other object as it is. -/
-  passCall : S → V → List V → List (String × V) → (V × List V × List (String × V)) × S
-  /-- what `Call.glomit` does: `arg_val(target, ·, scope)` applied to the *already
-      evaluated* function, to the tuple of arguments and to the dict of keyword
-      arguments (three calls, each with its own `_ArgValuator` cache): rebuilds
-      plain containers, but a glom spec object stored inside the target's data
-      would be evaluated here (first argument after the state: the target). -/
-  revalCall : S → V → V → List V → List (String × V) → (V × List V × List (String × V)) × S
+  /-- `arg_val(target, cur, scope)` applied to the *already evaluated* callee `cur`
+      (`r(self.func)` in `Call.glomit`; first argument after the state: the target).
+      A callable is returned as it is; a glom spec object stored inside the target's
+      data and used as callee would be evaluated here. -/
+  revalFunc : S → V → V → V × S
 
 /-! ### the objects that sit in `__ops__` -/
 
@@ -167,8 +165,9 @@ def guarded {V S} (F : Facts) (caught : List String) (k : Nat) (r : Except PyExc
     Except Err V × S :=
   (guardE F caught k r.1, r.2)
 
-/-- one iteration of the dispatch chain of `_t_eval` (`k = i // 2`) in state `s` -/
-def applyBranch {V S} (F : Facts) (prim : Prim V S) (target : V) (k : Nat) (op : String)
+/-- the branches of the dispatch chain of `_t_eval` that work on an argument already
+    evaluated by `arg_val` (`k = i // 2`), in state `s` -/
+def applyBranch {V S} (F : Facts) (prim : Prim V S) (k : Nat) (op : String)
     (s : S) (cur : V) (av : AV V) : Except Err V × S :=
   match dispatchOf F op with
   | none => (.ok cur, s)  -- the final `else:`; none of its inner `if op == …` matches: `cur` is left as it is
@@ -178,17 +177,37 @@ def applyBranch {V S} (F : Facts) (prim : Prim V S) (target : V) (k : Nat) (op :
     | .getitem, .val a => guarded F caught k (prim.getitem s cur a)
     | .bin b, .val a => guarded F caught k (prim.bin b s cur a)
     | .un u, .val _ => guarded F caught k (prim.un u s cur)
-    | .call, .call args kwargs =>
-      -- scope[glom](target, Call(cur, args, kwargs), scope); Call.glomit: r(func)(*r(args), **r(kwargs))
-      guarded F caught k
-        (prim.call (prim.revalCall s target cur args kwargs).2
-          (prim.revalCall s target cur args kwargs).1.1
-          (prim.revalCall s target cur args kwargs).1.2.1
-          (prim.revalCall s target cur args kwargs).1.2.2)
     | _, _ => (.error .unsupported, s)
 
 /-- an evaluation that reads and may change the state -/
 abbrev Run (S ε α : Type) := S → Except ε α × S
+
+/-- the op character the loop exempts from `arg_val` (`if op != '(':`) -/
+def callChar : String := "("
+
+/-- one iteration of the loop body for operation number `k = i // 2`: `ev` evaluates
+    `arg_val(target, t_path[i+1], scope)` in the state it is given -/
+def stepOp {V S} (F : Facts) (prim : Prim V S) (target : V) (k : Nat) (op : String)
+    (s : S) (cur : V) (ev : Run S Err (AV V)) : Except Err V × S :=
+  if op == callChar then
+    -- `arg` stays the recorded `(args, kwargs)`
+    match dispatchOf F op with
+    | none => (.ok cur, s)
+    | some (ks, caught) =>
+      match Kind.ofString ks with
+      | .call =>
+        -- scope[glom](target, Call(cur, args, kwargs), scope); Call.glomit:
+        -- r(self.func) … r(self.args), r(self.kwargs) … then the call
+        match ev (prim.revalFunc s target cur).2 with
+        | (.error e, s1) => (.error e, s1)
+        | (.ok (.call args kwargs), s1) =>
+          guarded F caught k (prim.call s1 (prim.revalFunc s target cur).1 args kwargs)
+        | (.ok (.val _), s1) => (.error .unsupported, s1)
+      | _ => (.error .unsupported, s)     -- another branch would receive the raw pair
+  else
+    match ev s with                             -- arg = arg_val(target, arg, scope): now, in state `s`
+    | (.error e, s1) => (.error e, s1)          -- raised by arg_val: outside every `try`
+    | (.ok av, s1) => applyBranch F prim k op s1 cur av
 
 /-- the `while i < fetch_till` loop of `_t_eval` on the flat ops tuple;
     `avs[j]` evaluates `arg_val(target, flat[j], scope)` in the state it is given -/
@@ -197,12 +216,9 @@ def tLoop {V S} (F : Facts) (prim : Prim V S) (flat : List (Obj V))
   if _hlt : i < flat.length then
     match flat[i]?, avs[i+1]? with
     | some (.opc op), some ev =>
-      match ev s with                             -- arg = arg_val(target, arg, scope): now, in state `s`
-      | (.error e, s1) => (.error e, s1)          -- raised by arg_val: outside every `try`
-      | (.ok av, s1) =>
-        match applyBranch F prim target (i / 2) op s1 cur av with
-        | (.ok v, s2) => tLoop F prim flat avs target (i + 2) s2 v
-        | (.error e, s2) => (.error e, s2)
+      match stepOp F prim target (i / 2) op s cur ev with
+      | (.ok v, s2) => tLoop F prim flat avs target (i + 2) s2 v
+      | (.error e, s2) => (.error e, s2)
     | _, _ => (.error .unsupported, s)
   else (.ok cur, s)
 termination_by flat.length - i
